@@ -188,12 +188,22 @@ def c06_cases(tier):
         if ord(a) < ord(b):
             s = den.norm([(ord(a), ord(b))])
             out.append((f"AnyBetween({lit(a)}, {lit(b)})", ('den', s)))
-            if thorough or (ord(a) + ord(b)) % 4 == 0 or not (a.isalnum() and b.isalnum()):
-                out.append((f"AnyButBetween({lit(a)}, {lit(b)})", ('den', den.compl(s))))
+            out.append((f"AnyButBetween({lit(a)}, {lit(b)})", ('den', den.compl(s))))
         else:
             out.append((f"AnyBetween({lit(a)}, {lit(b)})", ('raise', {'InvalidRangeException'})))
-            if thorough or a == b:
-                out.append((f"AnyButBetween({lit(a)}, {lit(b)})", ('raise', {'InvalidRangeException'})))
+            out.append((f"AnyButBetween({lit(a)}, {lit(b)})", ('raise', {'InvalidRangeException'})))
+    # tokens as range end points, against every printable ASCII character, in both positions
+    for name in ('Backslash', 'Dollar', 'Newline', 'Space', 'Tab', 'Euro'):
+        ch = TOKENS[name]
+        for c in pr:
+            for a1, a2, lo_, hi_ in ((f"{name}()", lit(c), ch, c), (lit(c), f"{name}()", c, ch)):
+                if ord(lo_) < ord(hi_):
+                    s = den.norm([(ord(lo_), ord(hi_))])
+                    out.append((f"AnyBetween({a1}, {a2})", ('den', s)))
+                    out.append((f"AnyButBetween({a1}, {a2})", ('den', den.compl(s))))
+                else:
+                    out.append((f"AnyBetween({a1}, {a2})", ('raise', {'InvalidRangeException'})))
+                    out.append((f"AnyButBetween({a1}, {a2})", ('raise', {'InvalidRangeException'})))
     for a, b in [('\x00', 'a'), ('\t', '\r'), ('\n', ' '), ('z', 'é'), ('Z', 'Ά'), ('ώ', 'Ѐ'), ('ӿ', '\u0590'),
                  ('\u05ff', '\u3131'), ('\u314e', '\u4e00'), ('\u9fd5', '\uac00'), ('\ud7a3', '\uffff'),
                  ('\uffff', '\U00010000'), ('a', '\U0010ffff'), ('\x00', '\U0010ffff'), ('\ud7ff', '\ue000')]:
